@@ -29,12 +29,13 @@ type dpath struct {
 }
 
 type denum struct {
-	info      *types.Info
-	pkg       *types.Package
-	inits     map[types.Object]ast.Expr // package-level initialisers
-	paths     []dpath
-	undecided string
-	limit     int
+	opaqueLoops bool // loops that cannot be unrolled are stepped over instead of making the function undecided
+	info        *types.Info
+	pkg         *types.Package
+	inits       map[types.Object]ast.Expr // package-level initialisers
+	paths       []dpath
+	undecided   string
+	limit       int
 }
 
 func (s dstate) with(e ast.Expr, v bool) dstate {
@@ -121,6 +122,22 @@ func (d *denum) run(stmts []ast.Stmt, in []dstate) []dstate {
 		}
 		switch s := st.(type) {
 		case *ast.ReturnStmt:
+			// `return <boolean expression>` is `if <expr> { return true }; return false`
+			if len(s.Results) == 1 {
+				if tv, ok := d.info.Types[s.Results[0]]; ok && tv.Value == nil && tv.Type != nil && tv.Type.String() == "bool" {
+					switch ast.Unparen(s.Results[0]).(type) {
+					case *ast.BinaryExpr, *ast.UnaryExpr:
+						t, f := d.split(s.Results[0], cur)
+						for _, x := range t {
+							d.paths = append(d.paths, dpath{Conds: x.conds, Ret: &ast.ReturnStmt{Return: s.Return, Results: []ast.Expr{ast.NewIdent("true")}}, Env: x.env, Trace: append(append([]ast.Stmt{}, x.trace...), s)})
+						}
+						for _, x := range f {
+							d.paths = append(d.paths, dpath{Conds: x.conds, Ret: &ast.ReturnStmt{Return: s.Return, Results: []ast.Expr{ast.NewIdent("false")}}, Env: x.env, Trace: append(append([]ast.Stmt{}, x.trace...), s)})
+						}
+						return nil
+					}
+				}
+			}
 			for _, x := range cur {
 				d.paths = append(d.paths, dpath{Conds: x.conds, Ret: s, Env: x.env, Trace: append(append([]ast.Stmt{}, x.trace...), s)})
 			}
@@ -201,6 +218,10 @@ func (d *denum) run(stmts []ast.Stmt, in []dstate) []dstate {
 		case *ast.RangeStmt:
 			elems := d.constElems(s.X, cur)
 			if elems == nil {
+				if d.opaqueLoops {
+					cur = traced(cur, s)
+					continue
+				}
 				d.undecided = "a range statement over something that is not a constant list"
 				return nil
 			}
@@ -223,6 +244,13 @@ func (d *denum) run(stmts []ast.Stmt, in []dstate) []dstate {
 				}
 				cur = d.run(s.Body.List, states)
 			}
+		case *ast.ForStmt:
+			if d.opaqueLoops {
+				cur = traced(cur, s)
+				continue
+			}
+			d.undecided = "a for statement"
+			return nil
 		default:
 			d.undecided = "a statement the path enumerator does not interpret (" + nodeKind(st) + ")"
 			return nil
